@@ -27,7 +27,12 @@ pub fn eval(dna: &[u16]) -> Case {
     let base_src = spec.render_def_with("", true);
     let base_ok = engine::expand_src(&base_src).is_ok();
     let fault = faults::apply(op, &mut spec, &mut d);
-    let src = spec.render_def_with("", true);
+    let mut src = spec.render_def_with("", true);
+    // an invalid request stays invalid when a `macro_rules!` body hands its types, discriminants, parameter values and Into
+    // targets over as fragments (inside invisible groups, see engine::none_groups)
+    if fault.is_some() && d.chance(20) {
+        src = spec.render_def_grouped(1 + d.pick(15) as u8);
+    }
     let result = if fault.is_some() && base_ok { engine::expand_src(&src) } else { Expansion::Unparsable("not evaluated".into()) };
     Case { base_ok, fault, base_src, src, result, spec }
 }
